@@ -5,7 +5,7 @@ Local Schedule Object
 """
 
 import calendar
-from time import mktime as _mktime
+from time import mktime as _mktime, localtime as _localtime
 
 from ..debugging import bacpypes_debugging, ModuleLogger
 
@@ -232,7 +232,25 @@ def datetime_to_time(date, time):
         time[0], time[1], time[2],
         0, 0, -1,
         )
-    return _mktime(time_tuple)
+    when = _mktime(time_tuple)
+
+    # a local time that is skipped when the clocks are set forward does not
+    # exist, mktime() returns an instant on the other side of the change that
+    # is off by the size of the step; the local clock passes the requested
+    # time at the change itself, so look for that instant in between
+    wanted = calendar.timegm(time_tuple[:6])
+    step = calendar.timegm(_localtime(when)[:6]) - wanted
+    if step:
+        before, after = sorted((int(when) - step, int(when)))
+        while after - before > 1:
+            middle = (before + after) // 2
+            if calendar.timegm(_localtime(middle)[:6]) < wanted:
+                before = middle
+            else:
+                after = middle
+        when = float(after)
+
+    return when
 
 #
 #   LocalScheduleObject
